@@ -310,13 +310,61 @@ def encodeWav (cfg : RichCfg) (ctx : EncCtx) (ws : List RWav) : R (List Nat) :=
 
 /-! ### richEncode -/
 
+/-- what each section of the rich map is written as -/
+def encodeOneSection (cfg : RichCfg) (ctx : EncCtx) (newStr : StrTable) (newLocs : List RLoc)
+    (swnmSec : R DSection) (uprpSec upusSec : DSection) : RSection → R DSection
+  | .pass (.unknown n p) => .ok (.unknown n p)
+  | .pass (.known n v) =>
+    if n = nSTR then .ok (.known nSTR (.str newStr.n newStr.offs newStr.strs))
+    else if n = nUPUS then .ok upusSec
+    else .ok (.known n v)
+  | .mrgn _ => match encodeMrgn cfg ctx newLocs with
+    | .error e => .error e
+    | .ok recs => .ok (.known nMRGN (.recs recs))
+  | .swnm _ => swnmSec
+  | .uprp _ => .ok uprpSec
+  | .trig ts => match mapR (encodeTrigger cfg ctx) ts with
+    | .error e => .error e
+    | .ok dts => .ok (.known nTRIG (.trigs dts))
+  | .unis ext us => match encodeUnits cfg ctx (if ext then 130 else 100) us with
+    | .error e => .error e
+    | .ok a => .ok (.known (if ext then nUNIx else nUNIS) (.arrays a))
+  | .wav ws => match encodeWav cfg ctx ws with
+    | .error e => .error e
+    | .ok ids => .ok (.known nWAV (.arrays [ids]))
+
+def encodeSwnmSection (texts : List Bytes) (newSwitches : List RSwitch) : R DSection :=
+  match mapR (fun (s : RSwitch) => idByStr texts s.name) newSwitches with
+  | .error e => .error e
+  | .ok ids => .ok (.known nSWNM (.arrays [ids]))
+
+/-- sections appended when the map had none of that kind -/
+def appendedSections (secs : List RSection) (swnmSec : R DSection) (uprpSec upusSec : DSection) :
+    R (List DSection) :=
+  let hasSwnm := secs.any fun s => match s with | .swnm _ => true | _ => false
+  let hasUprp := secs.any fun s => match s with | .uprp _ => true | _ => false
+  let hasUpus := secs.any fun s => match s with | .pass (.known n _) => n == nUPUS | _ => false
+  let tail : List DSection := (if hasUprp then [] else [uprpSec]) ++ (if hasUpus then [] else [upusSec])
+  if hasSwnm then .ok tail else
+    match swnmSec with
+    | .error e => .error e
+    | .ok s => .ok (s :: tail)
+
 structure Orders where
   locs : Option (List Nat) := none
   switches : Option (List Nat) := none
   cuwps : Option (List Nat) := none
 
-def richEncode (cfg : RichCfg) (orders : Orders) (wavMeta : List (Bytes × Nat)) (secs : List RSection) :
-    R (List DSection) :=
+/-- everything `encode_chk` computes before it walks the sections -/
+structure Rebuilt where
+  newStr : StrTable
+  ctx : EncCtx
+  newLocs : List RLoc
+  swnmSec : R DSection
+  uprpSec : DSection
+  upusSec : DSection
+
+def rebuildAll (cfg : RichCfg) (orders : Orders) (wavMeta : List (Bytes × Nat)) (secs : List RSection) : R Rebuilt :=
   match findStr secs with
   | .error e => .error e
   | .ok strT =>
@@ -338,48 +386,21 @@ def richEncode (cfg : RichCfg) (orders : Orders) (wavMeta : List (Bytes × Nat))
   match strTexts 2 newStr.n newStr.offs newStr.strs with
   | .error e => .error e
   | .ok texts =>
-    let ctx : EncCtx := ⟨texts, newLocs, locIds, switchIds, newCuwps, wavMeta⟩
-    let swnmSec : R DSection :=
-      match mapR (fun (s : RSwitch) => idByStr texts s.name) newSwitches with
-      | .error e => .error e
-      | .ok ids => .ok (.known nSWNM (.arrays [ids]))
-    let uprpSec : DSection := .known nUPRP (.recs (encodeUprp cfg newCuwps))
-    let upusSec : DSection := .known nUPUS (.arrays [upus])
-    let encOne : RSection → R DSection
-      | .pass (.unknown n p) => .ok (.unknown n p)
-      | .pass (.known n v) =>
-        if n = nSTR then .ok (.known nSTR (.str newStr.n newStr.offs newStr.strs))
-        else if n = nUPUS then .ok upusSec
-        else .ok (.known n v)
-      | .mrgn _ => match encodeMrgn cfg ctx newLocs with
-        | .error e => .error e
-        | .ok recs => .ok (.known nMRGN (.recs recs))
-      | .swnm _ => swnmSec
-      | .uprp _ => .ok uprpSec
-      | .trig ts => match mapR (encodeTrigger cfg ctx) ts with
-        | .error e => .error e
-        | .ok dts => .ok (.known nTRIG (.trigs dts))
-      | .unis ext us => match encodeUnits cfg ctx (if ext then 130 else 100) us with
-        | .error e => .error e
-        | .ok a => .ok (.known (if ext then nUNIx else nUNIS) (.arrays a))
-      | .wav ws => match encodeWav cfg ctx ws with
-        | .error e => .error e
-        | .ok ids => .ok (.known nWAV (.arrays [ids]))
-    match mapR encOne secs with
+    .ok ⟨newStr, ⟨texts, newLocs, locIds, switchIds, newCuwps, wavMeta⟩, newLocs,
+         encodeSwnmSection texts newSwitches, .known nUPRP (.recs (encodeUprp cfg newCuwps)),
+         .known nUPUS (.arrays [upus])⟩
+
+def richEncode (cfg : RichCfg) (orders : Orders) (wavMeta : List (Bytes × Nat)) (secs : List RSection) :
+    R (List DSection) :=
+  match rebuildAll cfg orders wavMeta secs with
+  | .error e => .error e
+  | .ok rb =>
+    match mapR (encodeOneSection cfg rb.ctx rb.newStr rb.newLocs rb.swnmSec rb.uprpSec rb.upusSec) secs with
     | .error e => .error e
     | .ok out =>
-      let hasSwnm := secs.any fun s => match s with | .swnm _ => true | _ => false
-      let hasUprp := secs.any fun s => match s with | .uprp _ => true | _ => false
-      let hasUpus := secs.any fun s => match s with | .pass (.known n _) => n == nUPUS | _ => false
-      let extra : R (List DSection) :=
-        if hasSwnm then Except.ok [] else
-          match swnmSec with
-          | Except.error e => Except.error e
-          | Except.ok s => Except.ok [s]
-      match extra with
+      match appendedSections secs rb.swnmSec rb.uprpSec rb.upusSec with
       | .error e => .error e
-      | .ok extraSwnm =>
-        .ok (out ++ extraSwnm ++ (if hasUprp then [] else [uprpSec]) ++ (if hasUpus then [] else [upusSec]))
+      | .ok extra => .ok (out ++ extra)
 
 /-- bytes → decoded → rich → decoded → bytes -/
 def cycle (cfg : RichCfg) (encTable : SecTable) (bs : Bytes) : R Bytes :=
